@@ -21,7 +21,9 @@ RULE = (
     '__next__): a counting run gives K, then EVERY k = 1..K is injected (single fault per run) in journaled worker processes; per injection: '
     'the caught exception is the injected object, refcount ledger of all tracked objects unchanged, re-running the operation equals the '
     'pre-failure baseline, hash/repr of the treespec unchanged. Malformed flatten returns / wrong leaf counts: documented exception types only. '
-    'distinct = distinct (operation, scenario, k); non-trivial = the operation completes a fault-free run with K >= 1'
+    'The same per-injection oracle also runs on GENERATED scenarios (seeded trees with container histories, a second materialisation of the same '
+    'description as rest tree, drawn option combination incl. namespace / none_is_leaf / predicate / dict-order mode; 4 operations per tree; every k up to '
+    '24, above that first, last and an even spread). distinct = distinct (operation, scenario, k); non-trivial = the operation completes a fault-free run with K >= 1'
 )
 ASSUMPTIONS = [
     'exempt: CPython\'s OrderedDict.items() iterator itself replaces a key __hash__/__eq__ failure by KeyError (seen through the pure-python one-level flatten used by prefix_errors)',
@@ -127,7 +129,7 @@ def operations():  # noqa: C901
     ops = {}
 
     def kw(c):
-        return dict(is_leaf=pred, none_is_leaf=False, namespace=c['ns'])
+        return c.get('kw') or dict(is_leaf=pred, none_is_leaf=False, namespace=c['ns'])
 
     def kwn(c):
         return dict(none_is_leaf=False, namespace=c['ns'])
@@ -201,19 +203,70 @@ def build_ctx(si):
 
 
 N_SCEN = 7
+# operations run on the generated scenarios (those whose callbacks a generated tree can reach: predicate, custom flatten / unflatten, mapped f,
+# visitors, leaves iterator); each generated tree gets RAND_OPS_PER_TREE of them, rotating
+RAND_OPS = ('tree_flatten', 'tree_flatten_with_path', 'tree_flatten_with_accessor', 'tree_iter', 'tree_leaves', 'tree_structure', 'tree_paths', 'tree_accessors',
+            'tree_map', 'tree_map_', 'tree_map_with_path', 'tree_map_with_accessor', 'tree_transpose_map', 'tree_broadcast_prefix', 'tree_broadcast_common',
+            'tree_broadcast_map', 'tree_reduce', 'tree_max', 'tree_flatten_one_level', 'prefix_errors', 'unflatten', 'tree_unflatten', 'traverse', 'walk', 'transform',
+            'flatten_up_to', 'all_leaves', 'treespec_from_collection')
+RAND_OPS_PER_TREE = 4
+RAND_K_CAP = 24
+_PRIMITIVE = (int, str, float, bool, bytes, complex, type(None))
 
 
 def journal_cases(shard):
     ops = list(operations())
     cases = [dict(op=o, scen=s) for s in range(N_SCEN) for o in ops]
+    import random
+
+    for idx in range(shard.get('nrand', 0)):
+        for o in random.Random(f'{shard.get("seed", 0)}:c15r-ops:{idx}').sample(RAND_OPS, RAND_OPS_PER_TREE):
+            cases.append(dict(op=o, rand=idx, seed=shard.get('seed', 0)))
     return [c for j, c in enumerate(cases) if j % shard['n'] == shard['i']]
 
 
+def build_rand_ctx(seed, idx):
+    """A generated scenario: a seeded tree with container histories, a second materialisation of the same description as the rest tree
+    (equal structure, other objects, other insertion orders), an option combination drawn by the case rng."""
+    import random
+
+    cs = harness.make_case('c15r', seed, idx, size_budget=14)
+    opt = gen.rand_opt(cs.rng, preds=[p_ for p_ in gen.PREDICATES if p_ not in gen.LEAF_CONTENT_PREDS])
+    rest, _ = gen.materialize(cs.desc, random.Random(f'{seed}:c15r-rest:{idx}'))
+    c = dict(tree=cs.tree, rest=rest, bad=None, bspec=None, ns=opt.namespace, kw=opt.kw(), opt=opt, ident=dict(cs.ident(), opt=repr(opt)))
+    with opt.ctx():
+        c['leaves'], c['spec'] = optree.tree_flatten(cs.tree, **opt.kw())
+        c['spec2'] = optree.tree_structure(cs.tree, **opt.kw())
+        c['rspec'] = optree.tree_structure(rest, **opt.kw())
+    leaf = optree.treespec_leaf(none_is_leaf=opt.none_is_leaf)
+    c['specdict'] = {'b': leaf, 'a': c['spec']}
+    c['speccoll'] = [c['spec'], leaf, (c['spec'],)]
+    objs = [x for t in (cs.tree, rest) for x in same.subobjects(t, limit=300) if not isinstance(x, _PRIMITIVE)]
+    keys = [k_ for x in objs if isinstance(x, dict) for k_ in x if not isinstance(k_, _PRIMITIVE)]
+    c['tracked'] = objs + keys + [c['spec'], c['spec2'], c['rspec'], c['leaves'], c['specdict'], c['speccoll']]
+    return c
+
+
 def journal_run(sink, case, sub_start, progress):  # noqa: C901
-    opname, si = case['op'], case['scen']
+    import contextlib
+
+    opname = case['op']
     op = operations()[opname]
-    ident = dict(op=opname, scenario=si)
-    c = build_ctx(si)
+    rand = 'rand' in case
+    with contextlib.ExitStack() as stack:
+        if rand:
+            si = f'r{case["rand"]}'
+            c = build_rand_ctx(case['seed'], case['rand'])
+            ident = dict(c['ident'], op=opname)
+            stack.enter_context(c['opt'].ctx())
+        else:
+            si = case['scen']
+            ident = dict(op=opname, scenario=si)
+            c = build_ctx(si)
+        _journal_run(sink, opname, op, si, c, ident, rand, sub_start, progress)
+
+
+def _journal_run(sink, opname, op, si, c, ident, rand, sub_start, progress):  # noqa: C901
     inj = Injector()
     # what every treespec involved looks like before anything ran (the counting run below must not change it either)
     all_specs = [x for x in (c['spec'], c['spec2'], c['rspec'], c.get('bspec')) if x is not None]
@@ -229,7 +282,8 @@ def journal_run(sink, case, sub_start, progress):  # noqa: C901
         inj.disarm()
     K = inj.n
     sites = dict(inj.sites)
-    sink.extra.setdefault('K', {})[f'{opname}/s{si}'] = K
+    if not rand:
+        sink.extra.setdefault('K', {})[f'{opname}/s{si}'] = K
     mismatch_op = opname.split('/')[-1].startswith('mismatch')
     if mismatch_op and c['bad'] is None:
         sink.count('op-not-applicable')
@@ -238,14 +292,23 @@ def journal_run(sink, case, sub_start, progress):  # noqa: C901
         sink.check(base[0] == 'ok' or base[1] == 'ValueError', f'mismatch-baseline/{opname}', 'a mismatching second tree fails with the documented ValueError (or, for predicates, returns)', ident, base)
     if base[0] != 'ok' and not (mismatch_op and base[1] == 'ValueError'):
         # the operation does not apply to this scenario (e.g. rest is not a suffix): nothing to inject into
-        sink.count('op-not-applicable')
-        sink.extra.setdefault('not_applicable', []).append(f'{opname}/s{si}: {base[1]}')
+        sink.count('op-not-applicable' + ('/generated' if rand else ''))
+        if not rand:
+            sink.extra.setdefault('not_applicable', []).append(f'{opname}/s{si}: {base[1]}')
         return
     for s_, n_ in sites.items():
         sink.count(f'site-reached:{s_.split(":")[0]}', n_)
     ledger = Ledger(c['tracked'])
     gc.collect()
-    for k in range(max(1, sub_start), K + 1):
+    ks = range(1, K + 1)
+    if rand:
+        sink.count('generated-scenarios' if K else 'generated-scenarios/no-callback-reached')
+        if K > RAND_K_CAP:
+            # every k up to the cap would only ever fail near the start of the traversal: first, last and an even spread in between
+            ks = sorted({1, K} | {1 + (j * (K - 1)) // (RAND_K_CAP - 1) for j in range(RAND_K_CAP)})
+    for k in ks:
+        if k < sub_start:
+            continue
         progress(k)
         gc.disable()
         try:
@@ -313,7 +376,11 @@ def journal_run(sink, case, sub_start, progress):  # noqa: C901
                    lambda: [(a[:160], b[:160]) for a, b in zip(r2, base_repr) if a != b] or (h2, base_hash))
         sink.count(f'injections:{site}')
         sink.count('injections')
-        sink.case(harness.fp(opname, si, k), True, jid if k == 1 and si == 0 else None)
+        if rand:
+            sink.count('injections/generated')
+            sink.cell('generated-op', opname)
+            sink.cell('generated-site', site)
+        sink.case(harness.fp(opname, si, k, ident.get('seed')), True, jid if k == 1 and si in (0, 'r0') else None)
     sink.cell('op', opname)
 
 
@@ -392,15 +459,16 @@ def shards(tier, seed):
 def run_shard(sink, tier, seed, shard):
     variants = ['plain'] if tier == 'quick' else ['plain', 'asan']
     n = 8 if tier == 'quick' else 16
+    nrand = {'plain': harness.scale(48, 5000, tier), 'asan': harness.scale(0, 1000, tier)}
     from concurrent.futures import ThreadPoolExecutor
 
     for variant in variants:
         log_path = os.path.join(build.VERIF, '.work', f'c15-{variant}-san') if variant != 'plain' else None
         env = build.env_for(variant, log_path=log_path)
 
-        def one(i, env=env):
+        def one(i, env=env, variant=variant):
             s = type(sink)('x', 'x', 0, 'x')
-            deaths = runner.run_journaled(s, 'vf.props.c15', dict(i=i, n=n), env=env, per_worker_timeout=1500)
+            deaths = runner.run_journaled(s, 'vf.props.c15', dict(i=i, n=n, seed=seed, nrand=nrand[variant]), env=env, per_worker_timeout=1500)
             return s, deaths
 
         with ThreadPoolExecutor(n) as ex:
@@ -428,6 +496,7 @@ def run_shard(sink, tier, seed, shard):
 
 def finalize(sink, tier, seed):
     sink.require('injections', 1000)
+    sink.require('injections/generated', 100)
     sink.require('malformed-probes')
     for site in ('pred', 'flatten', 'unflatten', 'f', 'f_node', 'f_leaf', 'key.__hash__', 'key.__eq__', 'key.__lt__', 'key.__repr__', 'meta.__eq__', 'meta.__repr__', 'namedtuple.__new__',
                  'entry.__init__', 'leaves.__next__'):
